@@ -567,6 +567,18 @@ func (t *tr) lockCall(c *ast.CallExpr) (op string, id int, ok bool) {
 	return strings.ToLower(name), lockOf(key), true
 }
 
+// assertedFrom: when x is a variable defined by a type assertion on an interface-typed expression, that interface
+func (t *tr) assertedFrom(x ast.Expr) types.Type {
+	id, ok := x.(*ast.Ident)
+	if !ok {
+		return nil
+	}
+	if o := t.pkg.TypesInfo.Uses[id]; o != nil {
+		return assertSrc[o]
+	}
+	return nil
+}
+
 func (t *tr) pos(n ast.Node) string {
 	p := t.pkg.Fset.Position(n.Pos())
 	rel, err := filepath.Rel(repoDir, p.Filename)
@@ -713,7 +725,7 @@ func (t *tr) calls(e ast.Node) *IR {
 						}
 						if !types.IsInterface(sel.Recv()) {
 							out = append(out, &IR{Op: "call", Call: funcKey(fobj), Pos: t.pos(x)})
-						} else if impls := implementers(sel.Recv(), fobj.Name()); len(impls) > 0 {
+						} else if impls := implementers(sel.Recv(), fobj.Name(), t.assertedFrom(se.X)); len(impls) > 0 {
 							// a call through a library interface: any implementation in the library may run
 							var alt *IR
 							for _, k := range impls {
@@ -1322,13 +1334,24 @@ type deferredCall struct {
 var allNamed []*types.Named // named non-interface types of the library
 var implCache = map[string][]string{}
 
-// implementers: methods `name` of the library's concrete types that implement interface type it
-func implementers(it types.Type, name string) []string {
+// assertSrc: for a variable defined by a type assertion `v, ok := X.(T)` with X of interface type, that interface: the
+// dynamic type of v implements both T and the type of X
+var assertSrc = map[types.Object]types.Type{}
+
+// implementers: methods `name` of the library's concrete types that implement interface type it (and, when given, also)
+func implementers(it types.Type, name string, also ...types.Type) []string {
 	iface, ok := it.Underlying().(*types.Interface)
 	if !ok {
 		return nil
 	}
 	key := typeKey(it) + "." + name
+	var alsoI *types.Interface
+	if len(also) == 1 && also[0] != nil {
+		if ai, ok := also[0].Underlying().(*types.Interface); ok {
+			alsoI = ai
+			key += "&" + typeKey(also[0])
+		}
+	}
 	if v, ok := implCache[key]; ok {
 		return v
 	}
@@ -1340,6 +1363,9 @@ func implementers(it types.Type, name string) []string {
 		} else if types.Implements(types.NewPointer(n), iface) {
 			impl = types.NewPointer(n)
 		} else {
+			continue
+		}
+		if alsoI != nil && !types.Implements(impl, alsoI) {
 			continue
 		}
 		obj, _, _ := types.LookupFieldOrMethod(impl, true, n.Obj().Pkg(), name)
@@ -1447,6 +1473,31 @@ func main() {
 					}
 				}
 			}
+		}
+	}
+	// variables defined by type assertions on interface-typed expressions
+	for _, p := range pkgs {
+		for _, f := range p.Syntax {
+			ast.Inspect(f, func(n ast.Node) bool {
+				as, ok := n.(*ast.AssignStmt)
+				if !ok || as.Tok != token.DEFINE || len(as.Rhs) != 1 || len(as.Lhs) == 0 {
+					return true
+				}
+				ta, ok := as.Rhs[0].(*ast.TypeAssertExpr)
+				if !ok || ta.Type == nil {
+					return true
+				}
+				src := p.TypesInfo.TypeOf(ta.X)
+				if src == nil || !types.IsInterface(src) {
+					return true
+				}
+				if id, ok := as.Lhs[0].(*ast.Ident); ok {
+					if o := p.TypesInfo.Defs[id]; o != nil {
+						assertSrc[o] = src
+					}
+				}
+				return true
+			})
 		}
 	}
 	// methods with a map or slice receiver that store through it
